@@ -17,7 +17,7 @@ import (
 func init() {
 	Register(&Prop{
 		ID:   "C06",
-		Expl: "Decides, over the four state tables extracted from swap/*.go and the SSA effect summaries of every action, that (R1) no state reachable by ANY event sequence from the success target of the claim-payment state has a key-disclosing action, and the only terminal state reachable is the preimage-claimed one; (R2) CoopCloseMessage.Privkey is only written inside actions used by taker tables, or in helpers/closures all of whose production callers are (transitively) such actions; (R3) the pay state and its successors are not FailOnrecover and, on every static call chain from a table action to a call that creates a claim payment, some call of the chain is dominated by a guard on the persisted preimage (written directly, with len(), through a getter or a predicate helper) whose other branch only succeeds without consulting outside services, so a restart between the post-payment store write and the next state does not re-pay and fall into the failure edge; (R4) that every action which arms a negotiation timer (directly or through a helper) is run only by first states of the tables, and whether the timers are ever cancelled (so OnTimeout must be safe in every later state). (R5) that no state at or after the pay state is FailOnrecover with an Event_ActionFailed edge from which a disclosing action is reachable (Recover injects that event although the payment may already be made); (R6) that every payment RPC reached from the LightningClient implementations of RebalancePayment, PayInvoiceViaChannel and RecoverClaimPayment (lnd: router SendPaymentV2 / TrackPaymentV2 and the other payment streams; CLN: waitsendpay) is not bounded by a deadline of the adapter's own making - the context comes from the client's lifetime context (constructor parameter, Background, WithCancel/WithValue of those), never from context.WithTimeout/WithDeadline, directly or through a helper, and the waitsendpay timeout is the constant 0 - because the pay action reads any error of these calls as 'not paid' and ends in coop_close with the key. The quantifier is over all states, edges and call sites, i.e. over all histories of accepted events.",
+		Expl: "Decides, over the four state tables extracted from swap/*.go and the SSA effect summaries of every action, that (R1) no state reachable by ANY event sequence from the success target of the claim-payment state has a key-disclosing action, and the only terminal state reachable is the preimage-claimed one; (R2) CoopCloseMessage.Privkey is only written inside actions used by taker tables, or in helpers/closures all of whose production callers are (transitively) such actions; (R3) the pay state and its successors are not FailOnrecover and, on every static call chain from a table action to a call that creates a claim payment, some call of the chain is dominated by a guard on the persisted preimage (written directly, with len(), through a getter or a predicate helper) whose other branch only succeeds without consulting outside services, so a restart between the post-payment store write and the next state does not re-pay and fall into the failure edge; (R4) that every action which arms a negotiation timer (directly or through a helper) is run only by first states of the tables, and whether the timers are ever cancelled (so OnTimeout must be safe in every later state). (R5) that no state at or after the pay state is FailOnrecover with an Event_ActionFailed edge from which a disclosing action is reachable (Recover injects that event although the payment may already be made); (R6) that every payment RPC reached from the LightningClient implementations of RebalancePayment, PayInvoiceViaChannel and RecoverClaimPayment (lnd: router SendPaymentV2 / TrackPaymentV2 and the other payment streams; CLN: waitsendpay) is not bounded by a deadline of the adapter's own making - the context comes from the client's lifetime context (constructor parameter, Background, WithCancel/WithValue of those), never from context.WithTimeout/WithDeadline, directly or through a helper, and the waitsendpay timeout is the constant 0 - because the pay action reads any error of these calls as 'not paid' and ends in coop_close with the key. (R7) that every call of the claim-payment primitive reached from a paying action (the paying action is identified also when the call sits in a goroutine or closure) is made synchronously and its error is tested on the way back to the action: a payment started in a goroutine whose result the caller waits for in a select with another arm (ctx.Done(), timer) lets the action fail while the HTLC is in flight. The quantifier is over all states, edges and call sites, i.e. over all histories of accepted events.",
 		NotD: "Whether an HTLC is still in flight when the payment call returns an error for reasons outside the adapter (connection loss, stream.Recv failing, the node shutting down - run-time state of the Lightning node): R6 decides only deadlines the adapter imposes on itself; timing.",
 		Run:  runC06,
 	})
@@ -29,6 +29,7 @@ func runC06(c *an.Check) {
 	c.Rule("C06.R3", "pay state and its successors are not FailOnrecover; every claim-payment call is dominated (in the action or at a call leading to it) by the `ClaimPreimage == \"\"` guard whose other edge only succeeds")
 	c.Rule("C06.R4", "negotiation timers are armed only in the first action of a table (info: whether toCancel is ever invoked)")
 	c.Rule("C06.R5", "a FailOnrecover state at or after the claim payment must not lead, through the Event_ActionFailed that Recover injects, to a key-disclosing action")
+	c.Rule("C06.R7", "every claim-payment call reached from a paying action is a synchronous call whose error result is tested on the way to the action's decision: the action cannot report failure while the payment is still in flight")
 	c.Rule("C06.R6", "the payment RPCs behind RebalancePayment / PayInvoiceViaChannel / RecoverClaimPayment run without a self-imposed deadline (client lifetime context; CLN waitsendpay timeout 0): their error means 'not paid' to the pay action")
 	if !needEffects(c, fxPay, fxPreimageSpend, fxAddTimeout) {
 		return
@@ -37,7 +38,7 @@ func runC06(c *an.Check) {
 	if ts == nil {
 		return
 	}
-	tk := takers(ts)
+	tk := c06Takers(c.W, ts)
 	if !c.AtLeast("C06", "taker tables", len(tk), 2) {
 		return
 	}
@@ -49,7 +50,7 @@ func runC06(c *an.Check) {
 	idx := c06BuildCallIdx(w)
 
 	for _, t := range tk {
-		pays := t.statesWith(fxPay)
+		pays := c06PayStates(c.W, t)
 		for _, p := range pays {
 			pe := t.T.States[p]
 			tgt, ok := pe.Events[evSucceeded]
@@ -187,11 +188,11 @@ func runC06(c *an.Check) {
 	for _, t := range ts {
 		for _, s := range t.T.Order {
 			for _, ex := range t.Sum[s].Execs {
-				for _, ef := range w.Summary(ex).Sites(fxPay) {
-					u := payUses[ef.Info.Instr]
+				for _, site := range c06PaySites(w, ex, 0, map[*ssa.Function]bool{}) {
+					u := payUses[site]
 					if u == nil {
-						u = &payUse{in: ef.Info.Instr, roots: map[*ssa.Function]bool{}}
-						payUses[ef.Info.Instr] = u
+						u = &payUse{in: site, roots: map[*ssa.Function]bool{}}
+						payUses[site] = u
 					}
 					u.roots[ex] = true
 					payStates[t.key(s)] = true
@@ -225,7 +226,7 @@ func runC06(c *an.Check) {
 		for _, root := range roots {
 			cons := w.FuncName(root) + " call " + strings.TrimPrefix(fxPay, "iface:")
 			pos := w.Pos(u.in.Pos())
-			chains := c06Chains(w, idx, root, u.in, false)
+			chains := c06Chains(w, idx, root, u.in, true)
 			if len(chains) == 0 {
 				c.Unknown("C06.R3", cons, pos, "the static call chain from the action to the payment call cannot be reconstructed")
 				continue
@@ -332,6 +333,18 @@ func runC06(c *an.Check) {
 	// R6: the adapters must not give up on a payment that is still outstanding
 	c06PaymentDeadlines(c)
 
+	// R7: the payment result is awaited
+	for _, u := range uses {
+		var roots []*ssa.Function
+		for r := range u.roots {
+			roots = append(roots, r)
+		}
+		sort.Slice(roots, func(i, j int) bool { return w.FuncName(roots[i]) < w.FuncName(roots[j]) })
+		for _, root := range roots {
+			c06PaymentAwaited(c, idx, root, u.in)
+		}
+	}
+
 	// is toCancel ever invoked?
 	invoked := false
 	for _, fn := range prodFuncs(w) {
@@ -350,6 +363,246 @@ func sortedKeysOf(m map[string][]*ssa.Return) []string {
 		k[x] = true
 	}
 	return sortedKeys(k)
+}
+
+// ---- paying actions, also through goroutines; R7 ------------------------------------------------
+
+// c06PaySites: the claim-payment calls fn reaches synchronously or through the
+// goroutines (go statements, at any depth <= 3 of nesting) it starts.
+func c06PaySites(w *an.World, fn *ssa.Function, depth int, seen map[*ssa.Function]bool) []ssa.CallInstruction {
+	if fn == nil || fn.Blocks == nil || seen[fn] || depth > 3 {
+		return nil
+	}
+	seen[fn] = true
+	var out []ssa.CallInstruction
+	for _, ef := range w.Summary(fn).Effects {
+		if ef.Name == fxPay {
+			out = append(out, ef.Info.Instr)
+		}
+		if ef.Info.IsGo {
+			for _, g := range c06Callees(w, ef.Info.Instr) {
+				out = append(out, c06PaySites(w, g, depth+1, seen)...)
+			}
+		}
+	}
+	return out
+}
+
+// c06PayStates: the states of t whose action tree reaches the claim payment.
+func c06PayStates(w *an.World, t *TI) []string {
+	var out []string
+	for _, s := range t.T.Order {
+		hit := false
+		for _, ex := range t.Sum[s].Execs {
+			if len(c06PaySites(w, ex, 0, map[*ssa.Function]bool{})) > 0 {
+				hit = true
+			}
+		}
+		if hit {
+			out = append(out, s)
+		}
+	}
+	return out
+}
+
+// c06Takers: tables with a paying state (by effect, also through goroutines).
+func c06Takers(w *an.World, ts []*TI) []*TI {
+	var out []*TI
+	for _, t := range ts {
+		if len(c06PayStates(w, t)) > 0 {
+			out = append(out, t)
+		}
+	}
+	return out
+}
+
+// c06PaymentAwaited decides R7 for one payment call reached from action root.
+func c06PaymentAwaited(c *an.Check, idx *c06CallIdx, root *ssa.Function, site ssa.CallInstruction) {
+	w := c.W
+	cons := w.FuncName(root) + " awaits " + strings.TrimPrefix(fxPay, "iface:")
+	pos := w.Pos(site.Pos())
+	chains := c06Chains(w, idx, root, site, true)
+	if len(chains) == 0 {
+		c.Unknown("C06.R7", cons, pos, "the call chain from the action to the payment call cannot be reconstructed")
+		return
+	}
+	bad, unk := "", ""
+	for _, ch := range chains {
+		// a go statement on the chain: the payment runs concurrently with the action
+		goAt := -1
+		for k, st := range ch {
+			if _, isGo := st.Call.(*ssa.Go); isGo {
+				goAt = k
+			}
+		}
+		if goAt >= 0 {
+			starter := ch[goAt].Fn
+			abandon := ""
+			// the channels on which the goroutine delivers, and how the function that
+			// started it waits for them
+			results := c06ResultChans(ch[goAt].Call)
+			awaited := false
+			for _, b := range starter.Blocks {
+				for _, in := range b.Instrs {
+					switch x := in.(type) {
+					case *ssa.Select:
+						for _, st := range x.States {
+							if st.Dir == types.RecvOnly && results[c06ChanKey(st.Chan, nil)] {
+								if len(x.States) >= 2 || !x.Blocking {
+									abandon = w.Pos(x.Pos())
+								} else {
+									awaited = true
+								}
+							}
+						}
+					case *ssa.UnOp:
+						if x.Op == token.ARROW && results[c06ChanKey(x.X, nil)] {
+							awaited = true
+						}
+					}
+				}
+			}
+			if abandon == "" && awaited {
+				continue // started concurrently but unconditionally waited for
+			}
+			if abandon != "" {
+				bad = "the payment is started in a goroutine by " + w.FuncName(starter) + " (" + w.Pos(ch[goAt].Call.Pos()) + ") and its result is waited for in a select with another arm (" + abandon + "): when that arm fires (retry context done, timer) the caller returns an error and the action reports failure while the HTLC is still in flight; the failure edge sends coop_close with the key and the goroutine's preimage is dropped"
+			} else if unk == "" {
+				unk = "the payment is started in a goroutine by " + w.FuncName(starter) + "; how its result is awaited is not interpreted"
+			}
+			continue
+		}
+		// synchronous: the error must be tested somewhere on the way up
+		tested := false
+		for k := len(ch) - 1; k >= 0; k-- {
+			cv, ok := ch[k].Call.(*ssa.Call)
+			if !ok {
+				break // defer: result lost
+			}
+			if okE, _ := an.OkEdges(cv); len(okE) > 0 {
+				tested = true
+				break
+			}
+			if !c06PassThrough(cv) {
+				break
+			}
+		}
+		if !tested && unk == "" {
+			unk = "the error result of the payment call is not tested on the way to the action's decision (chain " + c06ChainString(w, ch) + ")"
+		}
+	}
+	switch {
+	case bad != "":
+		c.Bad("C06.R7", cons, pos, bad)
+	case unk != "":
+		c.Unknown("C06.R7", cons, pos, unk)
+	default:
+		c.OK("C06.R7", cons, pos, "the payment call is synchronous and its error is tested: the action decides only after the payment call returned")
+	}
+}
+
+// c06ChanKey normalises a channel value: a local variable holding one
+// make(chan) is that make; a captured variable / parameter of a goroutine is
+// the value bound at the go statement.
+func c06ChanKey(v ssa.Value, goCall ssa.CallInstruction) ssa.Value {
+	for i := 0; i < 8 && v != nil; i++ {
+		switch x := v.(type) {
+		case *ssa.ChangeType:
+			v = x.X
+			continue
+		case *ssa.UnOp:
+			if x.Op == token.MUL {
+				v = x.X
+				continue
+			}
+		case *ssa.Alloc:
+			var stored []ssa.Value
+			if x.Referrers() != nil {
+				for _, r := range *x.Referrers() {
+					if st, ok := r.(*ssa.Store); ok && st.Addr == x {
+						stored = append(stored, st.Val)
+					}
+				}
+			}
+			if len(stored) == 1 {
+				v = stored[0]
+				continue
+			}
+		case *ssa.FreeVar:
+			if goCall != nil {
+				if mc, ok := goCall.Common().Value.(*ssa.MakeClosure); ok {
+					for j, fv := range x.Parent().FreeVars {
+						if fv == x && j < len(mc.Bindings) {
+							v = mc.Bindings[j]
+							goCall = nil
+						}
+					}
+					if goCall == nil {
+						continue
+					}
+				}
+			}
+		case *ssa.Parameter:
+			if goCall != nil && goCall.Common().StaticCallee() == x.Parent() {
+				for j, p := range x.Parent().Params {
+					if p == x && j < len(goCall.Common().Args) {
+						v = goCall.Common().Args[j]
+						goCall = nil
+					}
+				}
+				if goCall == nil {
+					continue
+				}
+			}
+		}
+		break
+	}
+	return v
+}
+
+// c06ResultChans: the channels (normalised in the starter's frame) on which the
+// function started by the go statement sends.
+func c06ResultChans(goCall ssa.CallInstruction) map[ssa.Value]bool {
+	out := map[ssa.Value]bool{}
+	g := goCall.Common().StaticCallee()
+	if g == nil {
+		return out
+	}
+	for _, b := range g.Blocks {
+		for _, in := range b.Instrs {
+			if snd, ok := in.(*ssa.Send); ok {
+				out[c06ChanKey(snd.Chan, goCall)] = true
+			}
+		}
+	}
+	return out
+}
+
+// c06PassThrough: the call's results are returned as they are (`return f(…)`).
+func c06PassThrough(call *ssa.Call) bool {
+	refs := call.Referrers()
+	if refs == nil || len(*refs) == 0 {
+		return false
+	}
+	for _, r := range *refs {
+		switch x := r.(type) {
+		case *ssa.Return, *ssa.DebugRef:
+		case *ssa.Extract:
+			if x.Referrers() == nil {
+				return false
+			}
+			for _, rr := range *x.Referrers() {
+				switch rr.(type) {
+				case *ssa.Return, *ssa.DebugRef:
+				default:
+					return false
+				}
+			}
+		default:
+			return false
+		}
+	}
+	return true
 }
 
 // ---- R6: no self-imposed deadline on payment RPCs -------------------------------------------
